@@ -21,5 +21,11 @@ pub(crate) fn duration_to_instant(duration: Duration) -> Instant {
 /// A helper to get the current time as a `Duration` since the epoch.
 #[inline]
 pub(crate) fn now_duration() -> Duration {
+  // Verification build: a virtual clock offset is added to the real clock.
+  #[cfg(excsn_fibre_verif)]
+  if true {
+    return instant_to_duration(Instant::now())
+      + Duration::from_nanos(fibre::verif::clock_offset_nanos());
+  }
   instant_to_duration(Instant::now())
 }
